@@ -1670,6 +1670,9 @@ impl<'a, 'b, W: Write> Serializer for &'a mut YamlSerializer<'b, W> {
             self.write_plain_or_quoted(variant)?;
             self.out.write_str(":\n")?;
             self.at_line_start = true;
+            // Do not let an inline hint staged by the parent (a complex `? key` stages one for
+            // its value) leak into the fields: `a: k: 1` on one line is not valid YAML.
+            self.pending_inline_map = false;
             // Fields indent one more level under the variant label.
             let depth_next = base + 1;
             return Ok(StructVariantSer {
